@@ -29,8 +29,10 @@ theorem assemble_spec {h : Host} {clock : Int} {pkts : List Pkt} {addr port : Na
     ∃ first, pkts.head? = some first ∧
       r.outs = immediateOuts qa addr port first.id first.nq (Gen.Reply.ucast_source port) ∧
       r.host.lis = h.lis ∧
-      (r.host.outQ = h.outQ ∨ ∃ d, drawLo ≤ d ∧ d ≤ drawHi ∧ r.host.outQ = h.outQ.add outQP clock first.now d qa.mcastAgg) ∧
-      (r.host.delayQ = h.delayQ ∨ ∃ d, drawLo ≤ d ∧ d ≤ drawHi ∧ r.host.delayQ = h.delayQ.add delayQP clock first.now d qa.mcastLast) := by
+      ((qa.mcastAgg.isEmpty = true → r.host.outQ = h.outQ) ∧
+       (qa.mcastAgg.isEmpty = false → ∃ d, drawLo ≤ d ∧ d ≤ drawHi ∧ r.host.outQ = h.outQ.add outQP clock first.now d qa.mcastAgg)) ∧
+      ((qa.mcastLast.isEmpty = true → r.host.delayQ = h.delayQ) ∧
+       (qa.mcastLast.isEmpty = false → ∃ d, drawLo ≤ d ∧ d ≤ drawHi ∧ r.host.delayQ = h.delayQ.add delayQP clock first.now d qa.mcastLast)) := by
   unfold Host.assemble at hs
   cases hh : pkts.head? with
   | none => rw [hh] at hs; simp at hs
@@ -54,26 +56,32 @@ theorem assemble_spec {h : Host} {clock : Int} {pkts : List Pkt} {addr port : Na
         refine ⟨rfl, rfl, ?_, ?_⟩
         · unfold queueAdd at h1
           split at h1
-          · simp only [Except.ok.injEq, Prod.mk.injEq] at h1; exact Or.inl h1.1.symm
-          · cases ht : takeDraw drawLo drawHi draws with
+          · rename_i he
+            simp only [Except.ok.injEq, Prod.mk.injEq] at h1
+            exact ⟨fun _ => h1.1.symm, fun hne => by rw [he] at hne; cases hne⟩
+          · rename_i he
+            cases ht : takeDraw drawLo drawHi draws with
             | error e => rw [ht] at h1; simp at h1
             | ok v =>
               obtain ⟨d, rs⟩ := v
               rw [ht] at h1
               simp only [Except.ok.injEq, Prod.mk.injEq] at h1
               obtain ⟨hd1, hd2, _⟩ := takeDraw_ok ht
-              exact Or.inr ⟨d, hd1, hd2, h1.1.symm⟩
+              exact ⟨fun he' => absurd he' he, fun _ => ⟨d, hd1, hd2, h1.1.symm⟩⟩
         · unfold queueAdd at h2
           split at h2
-          · simp only [Except.ok.injEq, Prod.mk.injEq] at h2; exact Or.inl h2.1.symm
-          · cases ht : takeDraw drawLo drawHi draws1 with
+          · rename_i he
+            simp only [Except.ok.injEq, Prod.mk.injEq] at h2
+            exact ⟨fun _ => h2.1.symm, fun hne => by rw [he] at hne; cases hne⟩
+          · rename_i he
+            cases ht : takeDraw drawLo drawHi draws1 with
             | error e => rw [ht] at h2; simp at h2
             | ok v =>
               obtain ⟨d, rs⟩ := v
               rw [ht] at h2
               simp only [Except.ok.injEq, Prod.mk.injEq] at h2
               obtain ⟨hd1, hd2, _⟩ := takeDraw_ok ht
-              exact Or.inr ⟨d, hd1, hd2, h2.1.symm⟩
+              exact ⟨fun he' => absurd he' he, fun _ => ⟨d, hd1, hd2, h2.1.symm⟩⟩
 
 /-- nothing to say: no datagram, no state change -/
 theorem assemble_none {h : Host} {clock : Int} {pkts : List Pkt} {addr port : Nat} {seen : SeenMap} {draws : List Int}
